@@ -206,6 +206,9 @@ func CombinationIndex(comb []int, n, k int) int {
 	if !sort.IntsAreSorted(comb) {
 		panic("combin: input combination is not sorted")
 	}
+	if k > 0 && (comb[0] < 0 || comb[k-1] >= n) {
+		panic("combin: bad element")
+	}
 	contains := make(map[int]struct{}, k)
 	for _, v := range comb {
 		contains[v] = struct{}{}
